@@ -4,6 +4,7 @@
 //! M <hex>     boot information region (length = max(8, r8(total size)))
 //! H <hex>     header region (length = max(16, r8(length)); defined enums)
 //! K <n> <hex>  construct fixed-size tag number n (C07 numbering) from argument words
+//! S <hex>     16-byte basic header: accessors, verify_checksum, calc_checksum
 //! ```
 //!
 //! and answers each with the address-free transcript of "load, walk, decode
@@ -160,6 +161,30 @@ fn main() {
                     let _ = writeln!(out, "bytes = PANIC");
                 }
             }
+            let _ = writeln!(out, ".");
+            let _ = out.flush();
+            continue;
+        }
+        if kind == "S" {
+            // S <hex of 16 bytes>: the fixed part of a header viewed as
+            // Multiboot2BasicHeader (no memory behind it is needed)
+            let raw = mb2_model::unhex(hex.trim()).unwrap_or_default();
+            if raw.len() != 16 {
+                let _ = writeln!(out, "ERROR bad basic header\n.");
+                let _ = out.flush();
+                continue;
+            }
+            let mut words = [0u64; 2];
+            unsafe { std::ptr::copy_nonoverlapping(raw.as_ptr(), words.as_mut_ptr() as *mut u8, 16) };
+            let h = unsafe { &*(words.as_ptr() as *const multiboot2_header::Multiboot2BasicHeader) };
+            let mut rec = mb2_model::transcript::Rec::new(0);
+            rec.call("magic".into(), || mb2_model::Val::U(h.header_magic() as u64));
+            rec.call("arch".into(), || mb2_model::Val::U(h.arch() as u32 as u64));
+            rec.call("length".into(), || mb2_model::Val::U(h.length() as u64));
+            rec.call("checksum".into(), || mb2_model::Val::U(h.checksum() as u64));
+            rec.call("verify".into(), || mb2_model::Val::B(h.verify_checksum()));
+            rec.call("calc".into(), || mb2_model::Val::U(multiboot2_header::Multiboot2Header::calc_checksum(h.header_magic(), h.arch(), h.length()) as u64));
+            let _ = out.write_all(rec.t.render().as_bytes());
             let _ = writeln!(out, ".");
             let _ = out.flush();
             continue;
